@@ -609,14 +609,27 @@ class Analyzer:
             n = p
         return False
 
-    def record(self, e, node, consumer, cls):
+    @staticmethod
+    def sorted_keyed(call):
+        """does this sorted(...) call take a key (anything but the literal None)?  With a key that is not injective on the
+        elements, tied elements keep the iteration order of the set (sorted() is stable)."""
+        if len(call.args) > 1:
+            return True                       # sorted(x, k): not valid Python 3, counted as keyed (fail-closed)
+        for kw in call.keywords:
+            if kw.arg is None:
+                return True                   # **kwargs
+            if kw.arg == "key" and not (isinstance(kw.value, ast.Constant) and kw.value.value is None):
+                return True
+        return False
+
+    def record(self, e, node, consumer, cls, keyed=False):
         sc = self.scope_of(node)
         k = self.kind(e, sc)
         if k == UNKNOWN and self.isinstance_guarded(e, node):
             k = ORDERED
         if k in (SET, SETDICT):
             self.sites.append({"file": self.fname, "fn": sc.qual(), "line": node.lineno, "iter": " ".join(ast.unparse(e).split()),
-                               "consumer": consumer, "class": cls, "kind": k})
+                               "consumer": consumer + (" with key=" if keyed else ""), "class": cls, "kind": k, "keyed": bool(keyed)})
         elif k == UNKNOWN and cls == 0:
             self.die(f"setsites: cannot classify the iterable `{ast.unparse(e)[:80]}` ({consumer}) at {self.fname}:{node.lineno} "
                      f"in {sc.qual()} - extend harness/gen/setsites.py or annotate the source")
@@ -638,7 +651,7 @@ class Analyzer:
             if isinstance(node, (ast.For, ast.AsyncFor)):
                 it = node.iter
                 if self.is_sorted_call(it) and it.args:
-                    self.record(it.args[0], node, "for-sorted", 1)
+                    self.record(it.args[0], node, "for-sorted", 1, self.sorted_keyed(it))
                 else:
                     self.record(it, node, "for", 0)
             elif isinstance(node, (ast.ListComp, ast.GeneratorExp, ast.DictComp, ast.SetComp)):
@@ -646,11 +659,11 @@ class Analyzer:
                 for g in node.generators:
                     it = g.iter
                     if self.is_sorted_call(it) and it.args:
-                        self.record(it.args[0], node, "comp-sorted", 1)
+                        self.record(it.args[0], node, "comp-sorted", 1, self.sorted_keyed(it))
                     elif isinstance(node, ast.SetComp) or ctxt is True:
                         self.record(it, node, "comp-insensitive", 2)
                     elif ctxt == "sorted":
-                        self.record(it, node, "comp-in-sorted", 1)
+                        self.record(it, node, "comp-in-sorted", 1, self.sorted_keyed(self.parent[node]))
                     else:
                         self.record(it, node, "comp", 0)
             elif isinstance(node, ast.Call):
@@ -664,7 +677,7 @@ class Analyzer:
                     p = self.parent.get(node)
                     direct = (isinstance(p, (ast.For, ast.AsyncFor)) and p.iter is node) or (isinstance(p, ast.comprehension) and p.iter is node)
                     if node.args and not direct:
-                        self.record(node.args[0], node, "sorted()", 1)
+                        self.record(node.args[0], node, "sorted()", 1, self.sorted_keyed(node))
                 elif is_name and nm in FREE_FUNCS:
                     for a in node.args[:1]:
                         if not isinstance(a, (ast.GeneratorExp, ast.ListComp, ast.SetComp, ast.DictComp)):
@@ -1405,6 +1418,25 @@ def ambient(fname, tree):
     return imports, calls
 
 
+def cache_sites(fname, tree):
+    """every function (at any depth, methods included) that carries a memoising decorator - functools.lru_cache / cache /
+    cached_property or anything whose text mentions cache / memo: a process-wide table in front of the function"""
+    out = []
+    for fn in ast.walk(tree):
+        if isinstance(fn, (ast.FunctionDef, ast.AsyncFunctionDef)):
+            for d in fn.decorator_list:
+                txt = ast.unparse(d)
+                if "cache" in txt.lower() or "memo" in txt.lower():
+                    out.append({"file": fname, "fn": fn.name, "line": fn.lineno, "decorator": " ".join(txt.split())})
+        # f = lru_cache(...)(f) / f = cache(f) at any level
+        if isinstance(fn, ast.Assign) and isinstance(fn.value, ast.Call):
+            txt = ast.unparse(fn.value.func)
+            if "cache" in txt.lower() or "memo" in txt.lower():
+                for t in fn.targets:
+                    out.append({"file": fname, "fn": ast.unparse(t), "line": fn.lineno, "decorator": " ".join(ast.unparse(fn.value).split())[:80]})
+    return out
+
+
 # ---------------------------------------------------------------------- entry point
 def analyse(src_dir: Path, die):
     trees = {}
@@ -1426,6 +1458,7 @@ def analyse(src_dir: Path, die):
         imports += i_
         calls += c_
     analyse.ambient = (imports, calls)
+    analyse.caches = [c for f in FILES + ["ast.py"] for c in cache_sites(f, trees[f])]
     for f in FILES:
         an = Analyzer(f, trees[f], attr, keys, rets, die)
         an.build_scopes()
@@ -1450,6 +1483,10 @@ def analyse(src_dir: Path, die):
     return sites, state
 
 
+def cmt0(t):
+    return t.replace("*)", "* )").replace("(*", "( *")
+
+
 def generate(api):
     import Reduino.transpile.parser as parser_mod
     src_dir = Path(parser_mod.__file__).resolve().parent
@@ -1459,10 +1496,11 @@ def generate(api):
     out = [api.HEADER]
     out.append("(* Inventory of hash-order-dependent iteration sites of transpile/parser.py and transpile/emitter.py.\n"
                "   class 0: the iteration order reaches the consumer; 1: wrapped in sorted(); 2: order-insensitive consumer. *)\n")
-    out.append("Record site := mk_site { s_file : text; s_fn : text; s_line : Z; s_iter : text; s_class : Z }.\n\n")
+    out.append("(* s_keyed: the sorted() call takes a key= (ties keep the set's iteration order). *)\n")
+    out.append("Record site := mk_site { s_file : text; s_fn : text; s_line : Z; s_iter : text; s_class : Z; s_keyed : bool }.\n\n")
     items = []
     for s in sites:
-        items.append(f"mk_site {api.ctext(s['file'])} {api.ctext(s['fn'])} {s['line']} {api.ctext(s['iter'])} {s['class']}"
+        items.append(f"mk_site {api.ctext(s['file'])} {api.ctext(s['fn'])} {s['line']} {api.ctext(s['iter'])} {s['class']} {'true' if s.get('keyed') else 'false'}"
                      f"\n    (* {s['file']}:{s['line']} {s['fn']}: {s['consumer']} over `{s['iter'].replace('*)', '* )').replace('(*', '( *')}` [{s['kind']}] *)")
     out.append("Definition sites : list site := " + api.clist(items) + ".\n\n")
     out.append("(* Module-level state: bindings that are not immutable literals / compiled regexes / functions / classes. *)\n")
@@ -1480,6 +1518,9 @@ def generate(api):
         [f"mk_imp {api.ctext(i['file'])} {api.ctext(i['module'])} {api.ctext(i['fn'])} {i['line']}\n    (* {i['file']}:{i['line']} import {i['module']} in {i['fn']} *)" for i in imports]) + ".\n\n")
     out.append("Definition ambient_calls : list (text * text * Z) := " + api.clist(
         [f"({api.ctext(c['file'])}, {api.ctext(c['fn'])}, {c['line']})\n    (* {c['file']}:{c['line']} {c['fn']} *)" for c in calls]) + ".\n")
+    out.append("\n(* Memoising decorators (functools.lru_cache / cache ...): (file, function, line). *)\n")
+    out.append("Definition cache_sites : list (text * text * Z) := " + api.clist(
+        [f"({api.ctext(c['file'])}, {api.ctext(c['fn'])}, {c['line']})\n    (* {c['file']}:{c['line']} {c['fn']}: {cmt0(c['decorator'])} *)" for c in analyse.caches]) + ".\n")
     uses, dsites, pre, prologue = analyse.uses
     out.append("\n(* Every use of a module-level (or class-level) mutable object inside the three files.\n"
                "   class 0: read-only; 1: the object (or a mutable part of it) ESCAPES - passed to a call such as ctx.setdefault(key, M) /\n"
@@ -1517,9 +1558,11 @@ if __name__ == "__main__":   # debugging aid: print the inventory
         sys.exit(1)
     s, st = analyse(Path(sys.argv[1]), _die)
     for x in s:
-        print(x["class"], f"{x['file']}:{x['line']}", x["fn"], "|", x["consumer"], "|", x["iter"], "|", x["kind"])
+        print(x["class"], f"{x['file']}:{x['line']}", x["fn"], "|", x["consumer"], "|", x["iter"], "|", x["kind"], "| keyed" if x.get("keyed") else "")
     for x in st:
         print("STATE", x["file"], x["line"], x["name"], x["vclass"], x["mutated"], x["how"])
+    for x in analyse.caches:
+        print("CACHE", x)
     us, ds, pre, prologue = analyse.uses
     for x in us:
         print("USE", x["class"], f"{x['file']}:{x['line']}", x["name"], x["fn"], "|", x["how"])
